@@ -66,6 +66,11 @@ SCENARIOS = [
      'c.who = || "field who"; print(c.who()); print(c.parent_who()); var g = d.parent_who; print(g());\n'
      'try { print(c.pextra()); } catch e { print(type(e) == AttributeError); }',
      ["A.who(c)", "A.who(d)", "A.name", "A.name", "field who", "A.who(c)", "A.who(d)", "true"]),
+    ("user-method-named-like-a-built-in-is-inherited",
+     '#[constructor(new)] class Shape { fn derives(self, c) { return "Shape.derives"; } fn area(self) { return 0; } }\n#[constructor(new), derive(Shape)] class Square { fn area(self) { return 4; } }\n'
+     '#[constructor(new), derive(Square)] class Unit { }\nprint(Shape.new().derives(Shape)); print(Square.new().derives(Shape)); print(Unit.new().derives(Object)); var f = Unit.new().derives; print(f(1));\n'
+     '#[constructor(new)] class Plain { } print(Plain.new().derives(Plain)); print(Plain.new().derives(Shape));',
+     ["Shape.derives", "Shape.derives", "Shape.derives", "Shape.derives", "true", "false"]),
     ("super-survives-rebinding",
      '#[constructor(new)] class A { fn hi(self) { return "old A"; } }\n#[constructor(new), derive(A)] class B { fn hi(self) { return super.hi(); } fn grab(self) { return super.hi; } }\n'
      'var b = B.new(); A = nil; print(b.hi()); print(b.grab()());\n#[constructor(new)] class A2 { fn hi(self) { return "new"; } } A = A2; print(b.hi()); print(B.new().hi());',
